@@ -564,30 +564,33 @@ class Memory():
         (addr, status) = struct.unpack('<IB', payload[0:5])
         logger.debug('WRITE: Mem={}, addr=0x{:X}, status=0x{}'.format(id, addr, status))
         # Find the write request (none if this is a duplicated or late acknowledgement)
-        if id in self._write_requests and len(self._write_requests[id]) > 0:
+        # Use one reference to the queue, the table of queues is replaced
+        # when the Crazyflie is disconnected
+        requests = self._write_requests.get(id)
+        if requests:
             self._write_requests_lock.acquire()
             do_call_sucess_cb = False
             do_call_fail_cb = False
-            wreq = self._write_requests[id][0]
+            wreq = requests[0]
             if status == 0:
                 if wreq.write_done(addr):
                     # self._write_requests.pop(id, None)
                     # Remove the first item
-                    self._write_requests[id].pop(0)
+                    requests.pop(0)
                     do_call_sucess_cb = True
 
                     # Get a new one to start (if there are any)
-                    if len(self._write_requests[id]) > 0:
-                        self._write_requests[id][0].start()
+                    if len(requests) > 0:
+                        requests[0].start()
             else:
                 logger.debug('Status {}: write failed.'.format(status))
                 # Remove from queue
-                self._write_requests[id].pop(0)
+                requests.pop(0)
                 do_call_fail_cb = True
 
                 # Get a new one to start (if there are any)
-                if len(self._write_requests[id]) > 0:
-                    self._write_requests[id][0].start()
+                if len(requests) > 0:
+                    requests[0].start()
 
             self._write_requests_lock.release()
 
